@@ -247,6 +247,25 @@ def lookup_pairs(table, lang="c++"):
     return pairs, tuples
 
 
+def lookup_cpaths(table, lang="c++"):
+    """Every C-side lookup path of the closure with the entry it resolves to (independent of the Fortran side)."""
+    res = table.resolve_all(lang)
+    groups = sorted(set(n.split("_")[1] for n in res if n.count("_") >= 2))
+    out = {}
+    for sg in groups:
+        for sp in SPOINTERS:
+            for intent in ("in", "out", "inout", "result"):
+                for suf in SUFFIXES.get(sg, ("", "buf")):
+                    for cdesc in ((None, "cdesc") if intent != "result" else (None,)):
+                        for spec in ((None, "string") if sg == "vector" else (None,)):
+                            if cdesc and suf != "":
+                                continue
+                            cpath = ["c", sg, sp, intent, suf, cdesc, spec] if intent != "result" else ["c", sg, sp, "result", suf]
+                            ce = table.lookup(cpath, lang)
+                            out[tuple(x or "" for x in cpath)] = ce
+    return out
+
+
 def rule_r4(repo, run, table):
     R = run.rule("C01.R4", "paired c_*/f_* entries agree on the number and kind of interface arguments "
                            "(over the lookup closure)")
